@@ -37,6 +37,19 @@ fn run_suite<C: Suite>(ctx: &mut Ctx) {
         pool.push(("random".into(), gen::random_scalar(&mut erng)));
     }
     // all proofs (cheap) - every worker computes the pool, pairs are sharded
+    // the pool must hold pairwise DISTINCT keys (the magnitude list repeats some edge scalars,
+    // e.g. 2^254): "another key" below means another scalar
+    {
+        let mut seen: Vec<RS> = Vec::new();
+        pool.retain(|(_, k)| {
+            if seen.contains(k) {
+                false
+            } else {
+                seen.push(*k);
+                true
+            }
+        });
+    }
     // a key for which no proof is produced is a violation in itself ("for every non-zero secret
     // key ..."); it is reported once by the worker that owns group `base` and leaves the pool
     let mut proofs: Vec<(Vec<u8>, Vec<u8>)> = Vec::new();
